@@ -272,9 +272,19 @@ macro_rules! ops {
         o.tag = Some(<$t as TaggedCborSerializable>::TAG);
         o.dec_tagged = Some(|b| <$t>::from_tagged_slice(b).map(|v| format!("{:?}", v)));
         o.recode_tagged = Some(|b| <$t>::from_tagged_slice(b).ok().map(|v| v.to_tagged_vec()));
+        // a value decoded from the untagged form can be encoded in the tagged form as well
+        o.follow = |b, aad, pl| match <$t>::from_slice(b) {
+            Ok(v) => {
+                let _ = v.clone().to_tagged_vec();
+                follow_all(v, aad, pl);
+                true
+            }
+            Err(_) => false,
+        };
         o.follow_tagged = Some(|b, aad, pl| match <$t>::from_tagged_slice(b) {
             Ok(v) => {
                 let _ = v.clone().to_tagged_vec();
+                let _ = v.clone().to_vec();
                 follow_all(v, aad, pl);
                 true
             }
